@@ -68,6 +68,7 @@ type sess struct {
 	key    *actor
 
 	live      bool
+	revoked   bool // was granted and then revoked (and not granted again)
 	num, seq  uint64
 	expiresAt int64
 	limit     int64 // ugnot part of SpendLimit
@@ -301,7 +302,7 @@ func (w *sessWorld) drawLimit() (std.Coins, int64) {
 
 func (w *sessWorld) drawPeriod() int64 {
 	c := w.c
-	switch c.Weighted([]int{4, 6, 3, 1, 1}) {
+	switch c.Weighted([]int{6, 9, 4, 1, 1}) {
 	case 0:
 		return 0
 	case 1:
@@ -318,7 +319,7 @@ func (w *sessWorld) drawPeriod() int64 {
 func (w *sessWorld) drawExpiry() int64 {
 	c := w.c
 	now := w.unix()
-	switch c.Weighted([]int{5, 4, 5, 1, 1, 1, 1}) {
+	switch c.Weighted([]int{8, 6, 8, 2, 1, 1, 1}) {
 	case 0:
 		return 0
 	case 1:
@@ -541,7 +542,11 @@ func (w *sessWorld) genMsgs(t *stx, master string, fit *sess) {
 			}
 		}
 	}
-	k := c.Weighted(w.txW)
+	kindW := w.txW
+	if forSession && fit.live && c.Chance(5, 6) {
+		kindW = w.grantedKinds(fit)
+	}
+	k := c.Weighted(kindW)
 	if !forSession && k == 11 {
 		k = 0
 	}
@@ -551,7 +556,7 @@ func (w *sessWorld) genMsgs(t *stx, master string, fit *sess) {
 	if k == 12 { // multi-message
 		n := 2 + c.Intn(3)
 		for i := 0; i < n; i++ {
-			kk := c.Weighted(w.txW)
+			kk := c.Weighted(kindW)
 			if kk == 12 || (!forSession && kk == 11) {
 				kk = 1
 			}
@@ -566,8 +571,11 @@ func (w *sessWorld) genMsgs(t *stx, master string, fit *sess) {
 func (w *sessWorld) expectation(t *stx, s *sess, sessionPaysFee bool) {
 	now := w.unix()
 	switch {
+	case !s.live && s.revoked:
+		t.hard = "revoked"
+		return
 	case !s.live:
-		t.hard = "unknown-session"
+		t.hard = "unknown-session" // never granted (or the grant was refused)
 		return
 	case s.expiresAt > 0 && now >= s.expiresAt:
 		t.hard = "expired"
@@ -639,10 +647,60 @@ func (w *sessWorld) genSessionTx(s *sess) *stx {
 	return t
 }
 
+// kindRep: a representative of what message shape k needs from a grant.
+func kindRep(k int) []msgInfo {
+	box := msgInfo{route: "vm", typ: "exec", path: boxPath}
+	switch k {
+	case 0, 7:
+		return []msgInfo{{route: "bank", typ: "send"}}
+	case 5:
+		return []msgInfo{{route: "vm", typ: "exec", path: boxerPath}, {route: "vm", typ: "exec", path: boxSubPath}}
+	case 6:
+		return []msgInfo{{route: "vm", typ: "run"}}
+	case 11:
+		return nil
+	}
+	return []msgInfo{box}
+}
+
+// grantedKinds: the per-run shape weights restricted to shapes the grant of s covers
+// (all of them again when it covers none).
+func (w *sessWorld) grantedKinds(s *sess) []int {
+	out := make([]int, len(w.txW))
+	any := false
+	for k := range w.txW {
+		if k == 12 {
+			continue
+		}
+		for _, m := range kindRep(k) {
+			if allowMatches(s.allow, m) && w.txW[k] > 0 {
+				out[k] = w.txW[k]
+				any = true
+			}
+		}
+	}
+	if !any {
+		return w.txW
+	}
+	out[12] = w.txW[12]
+	return out
+}
+
+func grantUseful(s *sess) bool {
+	for _, k := range []int{0, 1, 5, 6} {
+		for _, m := range kindRep(k) {
+			if allowMatches(s.allow, m) {
+				return true
+			}
+		}
+	}
+	return false
+}
+
 // usable: the session can still authorise something by the model.
 func (w *sessWorld) usable(s *sess) bool {
 	nowU := w.unix()
-	if !s.live || (s.expiresAt > 0 && nowU >= s.expiresAt) || len(s.allow) == 0 {
+	if !s.live || (s.expiresAt > 0 && nowU >= s.expiresAt) || !grantUseful(s) {
 		return false
 	}
 	if s.period == 0 && s.limit-s.usedLo < w.feeUnit/2 {
@@ -819,7 +877,7 @@ func (w *sessWorld) deliver(txs []*stx, tag string) {
 						kernel.Harnessf("session %s created twice", s.id())
 					}
 					ns.inc = s.inc + 1
-					ns.live, ns.created, ns.reset = true, now, now
+					ns.live, ns.revoked, ns.created, ns.reset = true, false, now, now
 					ns.usedLo, ns.usedHi, ns.ledger, ns.okTxs, ns.seq = 0, 0, nil, 0, 0
 					ns.weight = s.weight
 					sa := obs.au.acck.GetSessionAccount(obs.au.ctx, w.acts[ns.master].addr, ns.key.addr)
@@ -838,14 +896,14 @@ func (w *sessWorld) deliver(txs []*stx, tag string) {
 		for _, s := range t.revokes {
 			cur := w.find(s.master, s.slot)
 			if cur.live {
-				cur.live = false
+				cur.live, cur.revoked = false, true
 				w.r.Probe("sessions_revoked")
 			}
 		}
 		if t.revokeAllOf != "" {
 			for _, s := range w.slotsOf(t.revokeAllOf) {
 				if s.live {
-					s.live = false
+					s.live, s.revoked = false, true
 					w.r.Probe("sessions_revoked")
 					w.r.Probe("sessions_revoked_by_revoke_all")
 				}
@@ -981,6 +1039,9 @@ func (w *sessWorld) deliver(txs []*stx, tag string) {
 				w.r.Probe("session_tx_one_second_before_expiry")
 			}
 		}
+		if t.passed && len(t.infos) > 1 {
+			w.r.Probe("session_tx_multi_msg_past_ante")
+		}
 		switch {
 		case t.res.ok():
 			s.okTxs++
@@ -1105,7 +1166,7 @@ func (w *sessWorld) advance(timeW []int) (*sess, string) {
 	set := func(u int64) { w.now = time.Unix(u, nanos).UTC() }
 	var live []*sess
 	for _, s := range w.sessions {
-		if s.live && (s.period > 0 || s.expiresAt > nowU-2) && s.weight > 0 {
+		if s.live && (s.period > 0 || s.expiresAt > 0) && (s.expiresAt == 0 || s.expiresAt > nowU-2) && s.weight > 0 {
 			live = append(live, s)
 		}
 	}
@@ -1205,11 +1266,15 @@ func runSessions(c *kernel.Choices, p kernel.Params) *kernel.Result {
 	blockW := []int{8 + c.Intn(10), 1 + c.Intn(3), c.Intn(4), c.Intn(3), c.Intn(2), c.Intn(3), c.Intn(2), c.Intn(2)}
 	// clock weights: small step, boundary, jump, +1 s
 	timeW := []int{2 + c.Intn(6), c.Intn(8), c.Intn(3), c.Intn(3)}
-	nblocks := 24 + c.Intn(30)
+	nblocks := 36 + c.Intn(45)
 	if p.Tier == "thorough" {
-		nblocks = 30 + c.Intn(70)
+		nblocks = 50 + c.Intn(150)
 	}
-	restartDen := 4 + c.Intn(12)
+	// cold restarts are expensive (the VM re-preprocesses the standard library): a few per run, at drawn blocks
+	restartAt := map[int]bool{}
+	for i, n := 0, c.Intn(4); i < n; i++ {
+		restartAt[c.Intn(nblocks)] = true
+	}
 	c.Event("sessions run: fee unit %d, masters %v, %d session slots, %d blocks, txW=%v blockW=%v timeW=%v", w.feeUnit, w.masters, len(w.sessions), nblocks, w.txW, blockW, timeW)
 
 	// an empty block: learns the keys every block touches
@@ -1270,7 +1335,7 @@ func runSessions(c *kernel.Choices, p kernel.Params) *kernel.Result {
 	anySess := func(*sess) bool { return true }
 
 	for bi := 0; bi < nblocks && !w.stop; bi++ {
-		if c.Chance(1, restartDen) {
+		if restartAt[bi] {
 			c.Event("restart before h%d", w.height+1)
 			if err := w.ref.restart(); err != nil {
 				w.fail("C01", "restart", "cannot restart after height %d: %v", w.height, err)
